@@ -103,7 +103,14 @@ fn wait_until(native: bool, watchdog: Duration, mut done: impl FnMut() -> bool) 
     let mut spins = 0u32;
     loop {
         if done() { return Wait::Done; }
-        if !native { thread::park(); continue; }
+        if !native {
+            // Under Miri there is no /proc. Some conditions change without anybody unparking the monitor (a queue going idle), so
+            // first give the other threads the processor for a while; if the condition still does not hold and nobody unparks us, the
+            // untimed park turns a hang into a deadlock report of the interpreter (all other threads are blocked by then).
+            spins += 1;
+            if spins < 3000 { thread::yield_now(); } else { thread::park(); }
+            continue;
+        }
         spins += 1;
         if spins < 20 { thread::park_timeout(Duration::from_micros(100)); continue; }
         thread::park_timeout(Duration::from_micros(500));
@@ -452,6 +459,8 @@ pub fn run_program(prog: Program, opts: &Opts, plan: noise::Plan) -> RunResult {
                                 c.sink.report("C01", "lost_or_extra_update_on_protected_value", "touch_count".into(), format!("object {}: {} updates recorded in the value, {} performed by completed operations", i, a, expect));
                             }
                         }
+                        // without the hooks the monitor cannot see the queue going idle, so a Busy here proves nothing
+                        Err(_) if !cfg!(feature = "hooks") => {}
                         Err(_) => c.sink.report("C09", "try_sync_busy_on_idle_object", "closing_try_sync_busy".into(), format!("object {} has nothing queued or running (queue reports idle) but try_sync returned Busy", i)),
                     }
                 }
@@ -477,6 +486,36 @@ pub fn run_program(prog: Program, opts: &Opts, plan: noise::Plan) -> RunResult {
                 Wait::TimedOut => outcome = Outcome::Inconclusive("watchdog waiting for pipe release".into()),
             }
             oracle::check_pipes_final(&ctx);
+            // Clean-up that doubles as a check: every input that is still open is ended now. That is a stream event after the
+            // target is gone (or the end of the input of a live pipe), so every pipe has to let go of its stream and closure.
+            if outcome == Outcome::Completed {
+                let c = Arc::clone(&ctx);
+                let r = on_helper(native, watchdog, move || {
+                    for p in 0..c.prog.pipes.len() {
+                        if c.pipes[p].created.load(ORD) != 0 && c.pipes[p].closed_stamp.load(ORD) == 0 { crate::pipes::close_input(&c, p); }
+                    }
+                });
+                if r.is_err() { outcome = Outcome::Inconclusive("closing the pipe inputs did not return".into()); }
+                let all_released = |ctx: &RunCtx| ctx.pipes.iter().all(|st| st.created.load(ORD) == 0 || (st.input_drops.load(ORD) == 1 && st.closure_drops.load(ORD) == 1));
+                if outcome == Outcome::Completed {
+                    match wait_until(native, watchdog, || all_released(&ctx)) {
+                        Wait::Done => {}
+                        Wait::Quiescent(s) => {
+                            outcome = Outcome::Stuck;
+                            for (p, st) in ctx.pipes.iter().enumerate() {
+                                if st.created.load(ORD) != 0 && (st.input_drops.load(ORD) != 1 || st.closure_drops.load(ORD) != 1) {
+                                    let pd = &ctx.prog.pipes[p];
+                                    let prop = if !pd.through { "C11" } else if st.stream_dropped.load(ORD) != 0 { "C16" } else { "C12" };
+                                    ctx.sink.report(prop, "pipe_not_released_after_input_ended", format!("pipe_kept_after_end:{}", if pd.through { "pipe" } else { "pipe_in" }),
+                                        format!("pipe {}: the input has ended and every owner of the target is gone, but the input stream was dropped {} times and the processing closure {} times", p, st.input_drops.load(ORD), st.closure_drops.load(ORD)));
+                                }
+                            }
+                            describe_state(&ctx, &objects, &s, &mut diag);
+                        }
+                        Wait::TimedOut => outcome = Outcome::Inconclusive("watchdog waiting for pipes to be released after their input ended".into()),
+                    }
+                }
+            }
         }
         if outcome != Outcome::Stuck { oracle::check_after_close(&ctx, &mut stats); }
     }
